@@ -10,6 +10,7 @@ import (
 	"net"
 	"strings"
 	"sync"
+	"sync/atomic"
 	"time"
 
 	mail "github.com/wneessen/go-mail"
@@ -381,6 +382,95 @@ func runC19Seq(r *ev.Run, c c19SeqCase) {
 	r.Eval(fmt.Sprintf("seq|%+v", c), true)
 }
 
+// c19RedialCase: DialWithContext on a Client that still holds the connection of an earlier dial (no Close in between).
+// The earlier connection is healthy, has been dropped by the server, or its server refuses QUIT / NOOP from now on;
+// the second dialogue may itself be refused at EHLO. Whatever the second call returns as an error, the connection it
+// opened must be closed at that moment.
+type c19RedialCase struct {
+	First      string `json:"first_connection"` // healthy | server-dropped | quit-refused | noop-refused | quit-dropped
+	SecondEHLO string `json:"second_ehlo"`      // ok | 554 | drop
+	Redial     bool   `json:"redial_case"`
+}
+
+func runC19Redial(r *ev.Run, c c19RedialCase) {
+	viol := func(key, what string, obs any) {
+		r.Violate(ev.Violation{Key: key, What: what, Case: c, Observed: obs})
+	}
+	var refuse int32
+	farm := &refsmtp.Farm{NewConfig: func(n int) *refsmtp.Config {
+		return &refsmtp.Config{AllowUTF8: true, Decide: func(st refsmtp.Step) refsmtp.Action {
+			if n == 0 && atomic.LoadInt32(&refuse) == 1 {
+				switch {
+				case c.First == "quit-refused" && st.Verb == "QUIT":
+					return refsmtp.Action{Kind: refsmtp.Reply, Code: 500, Text: "5.5.1 not now"}
+				case c.First == "quit-dropped" && st.Verb == "QUIT":
+					return refsmtp.Action{Kind: refsmtp.Drop}
+				case c.First == "noop-refused" && (st.Verb == "NOOP" || st.Verb == "RSET"):
+					return refsmtp.Action{Kind: refsmtp.Reply, Code: 421, Text: "4.4.2 closing"}
+				}
+			}
+			if n == 1 && (st.Verb == "EHLO" || st.Verb == "HELO") {
+				switch c.SecondEHLO {
+				case "554":
+					return refsmtp.Action{Kind: refsmtp.Reply, Code: 554, Text: "5.3.2 go away"}
+				case "drop":
+					return refsmtp.Action{Kind: refsmtp.Drop}
+				}
+			}
+			return refsmtp.Action{}
+		}}
+	}}
+	defer farm.Shutdown()
+	cl, err := mail.NewClient(netHost, mail.WithDialContextFunc(farm.Dial), mail.WithTimeout(defaultNetTimeout), mail.WithHELO("client.verif.example"), mail.WithTLSPolicy(mail.NoTLS))
+	if err != nil {
+		r.HarnessError("C19 redial NewClient: " + err.Error())
+		return
+	}
+	ctx, cancel := context.WithTimeout(context.Background(), 10*time.Second)
+	defer cancel()
+	if err := cl.DialWithContext(ctx); err != nil {
+		r.HarnessError("C19 redial first dial: " + err.Error())
+		return
+	}
+	atomic.StoreInt32(&refuse, 1)
+	if c.First == "server-dropped" {
+		if sess, _ := farm.Snapshot(); len(sess) > 0 {
+			sess[0].Stop()
+		}
+		time.Sleep(5 * time.Millisecond)
+	}
+	var dErr error
+	hung, _ := withWatchdog(20*time.Second, func() { dErr = cl.DialWithContext(ctx) }, func() { farm.Shutdown() })
+	if hung {
+		r.Inconclusive("C19 redial: second DialWithContext hung")
+		return
+	}
+	sess, conns := farm.Snapshot()
+	closedAtReturn := make([]bool, len(conns))
+	for i, tc := range conns {
+		closedAtReturn[i] = tc.Closed()
+	}
+	_ = cl.Close()
+	farm.Shutdown()
+	r.Count("redial_sequences", 1)
+	r.Eval(fmt.Sprintf("redial|%+v", c), dErr != nil)
+	if dErr == nil {
+		r.Count("redials_succeeded", 1)
+		return
+	}
+	r.Count("redials_failed", 1)
+	if len(conns) < 2 {
+		return // the error came before a second connection was opened
+	}
+	if !closedAtReturn[1] {
+		tr := ""
+		if len(sess) > 1 {
+			tr = sess[1].Transcript()
+		}
+		viol("conn-open-after-error:redial:"+c.First, fmt.Sprintf("DialWithContext on a Client that held an earlier connection (%s) returned %v; the connection this call had opened was not closed at that moment", c.First, dErr), tr)
+	}
+}
+
 func classifyDialErr(err error) string {
 	s := err.Error()
 	switch {
@@ -443,7 +533,7 @@ func c19Configs(thorough bool) []c19Config {
 
 func runC19(r *ev.Run, rep *ev.ReplayDoc) ev.Summary {
 	sum := ev.Summary{
-		Rule: "execution-tree enumeration over the dial and dial-and-send dialogues: for DialWithContext, DialToSMTPClientWithContext and DialAndSend x TLS policies (none/opportunistic/mandatory, STARTTLS advertised or not, good / wrong-name / untrusted certificate) x auth configurations (PLAIN, LOGIN, wrong password, AUTH missing, mechanism unsupported, refused on unencrypted connection, autodiscover without usable mechanism), the server deviates ({4yz, 5yz, drop, a line that is no SMTP reply}) or the caller's context is cancelled (server answering normally) at up to 1 (quick) / 2 (thorough) positions from the greeting to QUIT. The tracking net.Conn injected through WithDialContextFunc is inspected at the instant the public call returns. Plus DialAndSend on a Client that already holds an established connection; plus implicit TLS through the library's own dialer over loopback TCP against peers the handshake cannot succeed with (clear-text greeting, wrong-name / untrusted certificate, garbage): the peer never closes and watches for the end of the stream. non-trivial = the call failed or a deviation was scripted",
+		Rule: "execution-tree enumeration over the dial and dial-and-send dialogues: for DialWithContext, DialToSMTPClientWithContext and DialAndSend x TLS policies (none/opportunistic/mandatory, STARTTLS advertised or not, good / wrong-name / untrusted certificate) x auth configurations (PLAIN, LOGIN, wrong password, AUTH missing, mechanism unsupported, refused on unencrypted connection, autodiscover without usable mechanism), the server deviates ({4yz, 5yz, drop, a line that is no SMTP reply}) or the caller's context is cancelled (server answering normally) at up to 1 (quick) / 2 (thorough) positions from the greeting to QUIT. The tracking net.Conn injected through WithDialContextFunc is inspected at the instant the public call returns. Plus DialAndSend, and a second DialWithContext, on a Client that already holds an established connection (healthy, dropped by the server, or refusing QUIT / NOOP); plus implicit TLS through the library's own dialer over loopback TCP against peers the handshake cannot succeed with (clear-text greeting, wrong-name / untrusted certificate, garbage): the peer never closes and watches for the end of the stream. non-trivial = the call failed or a deviation was scripted",
 		Assumptions: []string{
 			"closing is synchronous: the conn must be closed when the call returns, no grace period",
 			"only errors returned after the dial function handed out a connection are judged",
@@ -455,6 +545,11 @@ func runC19(r *ev.Run, rep *ev.ReplayDoc) ev.Summary {
 		var q c19SeqCase
 		if err := json.Unmarshal(rep.Case, &q); err == nil && q.Seq {
 			runC19Seq(r, q)
+			return sum
+		}
+		var rd c19RedialCase
+		if err := json.Unmarshal(rep.Case, &rd); err == nil && rd.Redial {
+			runC19Redial(r, rd)
 			return sum
 		}
 		var o c19OwnCase
@@ -482,6 +577,12 @@ func runC19(r *ev.Run, rep *ev.ReplayDoc) ev.Summary {
 	// DialAndSend on a Client that already holds an established connection
 	for _, rr := range []bool{false, true} {
 		runC19Seq(r, c19SeqCase{RefuseRcpt: rr, Seq: true})
+	}
+	// DialWithContext again on a Client that still holds an earlier connection
+	for _, first := range []string{"healthy", "server-dropped", "quit-refused", "quit-dropped", "noop-refused"} {
+		for _, se := range []string{"ok", "554", "drop"} {
+			runC19Redial(r, c19RedialCase{First: first, SecondEHLO: se, Redial: true})
+		}
 	}
 	// implicit TLS through the library's own tls.Dialer path: the peer watches whether its side sees the end of the stream
 	var own []c19OwnCase
